@@ -186,8 +186,6 @@ class Ctx:
                         impl = self.ufunc_impl(target)
                         if impl:
                             edges.add(impl)
-                    elif type(node.op) in BINOP_METHOD:
-                        edges.add(f"numpoly.baseclass.ndpoly.{BINOP_METHOD[type(node.op)]}")
                 elif isinstance(node, ast.UnaryOp) and isinstance(node.op, ast.USub):
                     impl = self.ufunc_impl("numpy.negative")
                     if impl:
